@@ -49,3 +49,7 @@ Definition table_draw (t : table_result) (b : nat) (u : Q) : option Z :=
   | TableOnly J => let ji := nth b J (-1)%Z in if (0 <=? ji)%Z then Some ji else None
   | TableError => None
   end.
+
+(* _sample_one exactly as written: ONE 32-bit word i gives both the slot byte i & 255 and the alias uniform i * 2^-32 *)
+Definition table_draw_word (t : table_result) (w : Z) : option Z :=
+  table_draw t (Z.to_nat (w mod 256)) (inject_Z w / inject_Z (2 ^ 32)).
